@@ -675,4 +675,14 @@ example :
     let shared : ErrorStore := [[f2].take 1, [f2]]          -- view of length 1 into the refilled buffer
     readTrace own 0 = some [f1] ∧ readTrace shared 0 = some [f2] := by decide
 
+/-! ## building the message of an engine error -/
+
+/-- no script runs while the message is built at the sites that name the callee instead of formatting the value -/
+theorem message_no_script_partial (s : MsgSite) (h : passesValue s = false) :
+    messageScriptCalls s = Spec.messageScriptCalls s := by
+  simp [messageScriptCalls, Spec.messageScriptCalls, h]
+
+/-- Dev `msg_runs_script`: `[1].forEach(o)` calls `o.toString` to build its TypeError's message -/
+example : messageScriptCalls .forEach = ["ts"] ∧ Spec.messageScriptCalls .forEach = [] := by decide
+
 end OttoVerif.C19.Thm
